@@ -752,10 +752,17 @@ def _composite_keystone_aperture(x, y, center_circle_diameter,
             rr = arr[:, 0]
             tt = arr[:, 1]
             xx, yy = polar_to_cart(rr, tt)
-            minx = min(xx)
-            maxx = max(xx)
-            miny = min(yy)
-            maxy = max(yy)
+            # the outer arc reaches past its corners and midpoint wherever it
+            # crosses a coordinate axis; the window must hold those points too
+            quarter = np.pi / 2
+            crossings = np.arange(math.ceil(lo/quarter), math.floor(hi/quarter)+1) * quarter
+            axx, ayy = polar_to_cart(outer_radius, crossings)
+            bbx = np.concatenate((xx, axx))
+            bby = np.concatenate((yy, ayy))
+            minx = min(bbx)
+            maxx = max(bbx)
+            miny = min(bby)
+            maxy = max(bby)
             rangex = maxx - minx
             rangey = maxy - miny
             samples = math.ceil(max((rangex/dx, rangey/dx))/2)
